@@ -1,3 +1,4 @@
 import Lcapy.Driver.Loop
 import Lcapy.Driver.C01
-def main : IO Unit := Lcapy.Driver.runDriver [Lcapy.Driver.C01.handle]
+import Lcapy.Driver.C03
+def main : IO Unit := Lcapy.Driver.runDriver [Lcapy.Driver.C01.handle, Lcapy.Driver.C03.handle]
